@@ -233,7 +233,7 @@ func CoerceString(v Value) string {
 func GetAttr(v Value, attr Value, args ...Value) (Value, error) {
 	r := reflect.Indirect(reflect.ValueOf(v))
 	if !r.IsValid() {
-		return nil, fmt.Errorf("getattr: value does not support attribute lookup: %v", v)
+		return nil, fmt.Errorf("getattr: value does not support attribute lookup: %T", v)
 	}
 	var retval reflect.Value
 	switch r.Kind() {
@@ -261,26 +261,26 @@ func GetAttr(v Value, attr Value, args ...Value) (Value, error) {
 		}
 	}
 	if !retval.IsValid() {
-		return nil, fmt.Errorf("getattr: unable to locate attribute \"%s\" on \"%v\"", attr, v)
+		return nil, fmt.Errorf("getattr: unable to locate attribute \"%s\" on %T", CoerceString(attr), v)
 	}
 	if !retval.CanInterface() {
 		// (also before calling it: Call panics on a func held in an unexported field)
-		return nil, fmt.Errorf("getattr: attribute \"%s\" on \"%v\" is not exported", attr, v)
+		return nil, fmt.Errorf("getattr: attribute \"%s\" on %T is not exported", CoerceString(attr), v)
 	}
 	if retval.Kind() == reflect.Func {
 		t := retval.Type()
 		if t.NumOut() > 1 {
-			return nil, fmt.Errorf("getattr: multiple return values unsupported, called method \"%s\" on \"%v\"", attr, v)
+			return nil, fmt.Errorf("getattr: multiple return values unsupported, called method \"%s\" on %T", CoerceString(attr), v)
 		}
 		rargs := make([]reflect.Value, len(args))
 		for k, v := range args {
 			rargs[k] = reflect.ValueOf(v)
 		}
 		if t.NumIn() != len(rargs) {
-			return nil, fmt.Errorf("getattr: method \"%s\" on \"%v\" expects %d parameter(s), %d given", attr, v, t.NumIn(), len(rargs))
+			return nil, fmt.Errorf("getattr: method \"%s\" on %T expects %d parameter(s), %d given", CoerceString(attr), v, t.NumIn(), len(rargs))
 		}
 		if retval.IsNil() {
-			return nil, fmt.Errorf("getattr: method \"%s\" on \"%v\" is nil", attr, v)
+			return nil, fmt.Errorf("getattr: method \"%s\" on %T is nil", CoerceString(attr), v)
 		}
 		for k := range rargs {
 			pt := t.In(k)
@@ -296,7 +296,7 @@ func GetAttr(v Value, attr Value, args ...Value) (Value, error) {
 				}
 			}
 			if !rargs[k].IsValid() || !rargs[k].Type().AssignableTo(pt) {
-				return nil, fmt.Errorf("getattr: method \"%s\" on \"%v\" cannot take %v as parameter %d", attr, v, args[k], k+1)
+				return nil, fmt.Errorf("getattr: method \"%s\" on %T cannot take %T as parameter %d", CoerceString(attr), v, args[k], k+1)
 			}
 		}
 		res := retval.Call(rargs)
@@ -306,7 +306,7 @@ func GetAttr(v Value, attr Value, args ...Value) (Value, error) {
 		retval = res[0]
 	}
 	if !retval.CanInterface() {
-		return nil, fmt.Errorf("getattr: attribute \"%s\" on \"%v\" is not exported", attr, v)
+		return nil, fmt.Errorf("getattr: attribute \"%s\" on %T is not exported", CoerceString(attr), v)
 	}
 	return retval.Interface(), nil
 }
@@ -375,7 +375,7 @@ func getMethod(v Value, name string) (reflect.Value, error) {
 	if retVal.IsValid() {
 		return retVal, nil
 	}
-	return retVal, fmt.Errorf("stick: unable to locate method \"%s\" on \"%v\"", name, v)
+	return retVal, fmt.Errorf("stick: unable to locate method \"%s\" on %T", name, v)
 }
 
 // An Iteratee is called for each step in a loop.
@@ -483,7 +483,7 @@ func Iterate(val Value, it Iteratee) (int, error) {
 		}
 		return ln, nil
 	default:
-		return 0, fmt.Errorf(`stick: unable to iterate over %s "%v"`, r.Kind(), val)
+		return 0, fmt.Errorf(`stick: unable to iterate over %s %T`, r.Kind(), val)
 	}
 }
 
@@ -497,7 +497,7 @@ func Len(val Value) (int, error) {
 	case reflect.Slice, reflect.Array, reflect.Map:
 		return r.Len(), nil
 	}
-	return 0, fmt.Errorf(`stick: could not get Length of %s "%v"`, r.Kind(), val)
+	return 0, fmt.Errorf(`stick: could not get Length of %s %T`, r.Kind(), val)
 }
 
 // Equal returns true if the two Values are considered equal.
